@@ -35,6 +35,8 @@ WRITE_OPEN_SITES = {
 
 
 def check(ck):
+    from .memo import check_new_memo_tables
+    ck.run(check_new_memo_tables, ck, "C07.M1", ('storage_base', 'storage_filesystem'))
     R1, R2, R3, R4, R5, R6 = ("C07.R%d" % i for i in range(1, 7))
     ck.rule(R1, "the content key is the full SHA-256 hex digest of the same bytes that are handed to the data source", 5)
     ck.rule(R2, "dedupe: when the content key exists and there is no override nothing is written and the existing "
